@@ -568,7 +568,7 @@ Progress ==
   \/ \E c \in Conns : Serve(c) \/ ExchangeOK(c) \/ ExchangeFail(c) \/ DiscGrab(c) \/ DiscConnect(c) \/ ConnectFail(c)
                        \/ \E b \in Brokers : ConnectDone(c, b)
   \/ Update \/ DiscConnectRefused
-FairSpec == Spec /\ WF_vars(Progress)
+FairSpec == Spec /\ WF_vars(Progress /\ UNCHANGED cf)
 
 -----------------------------------------------------------------------------
 (* properties *)
